@@ -58,8 +58,8 @@ def prefix_representable(op, args):
     for b in xs[1:]:
         if not ref_num.representable(acc):
             return False
-        if not ref_num.is_exact(b):
-            return False          # the running quotient is inexact from here on
+        if not ref_num.is_exact(b) or not ref_num.representable(b):
+            return False          # the running quotient is inexact from here on (an unrepresentable literal is inexact too)
         if b == 0:
             return True
         acc = acc / b
@@ -173,6 +173,9 @@ def judge(ctx, op, args, step, src):
         return viol("%s of an inexact number is wrong" % op, clause="5", expected=float(f(v)))
     if op in ("floor-quotient", "floor-remainder"):
         n, d = args
+        if exact_args and not (ref_num.representable(n) and ref_num.representable(d)):
+            # a literal outside the exact range is an inexact number from the start: what follows is not exact arithmetic
+            ctx.count("unjudgeable_unrepresentable_literal"); return None
         if exact_args:
             if d == 0:
                 ctx.count("clause3_div0_checked"); ctx.nontriv("div0:" + key)
